@@ -5,7 +5,9 @@ PFILE = "src/polynomial/mod.rs"
 
 
 def cfg():
-    return Config(extra_subst=[("Polynomial<N>", "Polynomial"), ("Polynomial::<N>", "Polynomial")])
+    c = Config(extra_subst=[("Polynomial<N>", "Polynomial"), ("Polynomial::<N>", "Polynomial")])
+    c.extra = [("Vec::from(", "vx_vec_from_slice(", "R13-vec-from-slice")]
+    return c
 
 
 POLY_SPEC = r'''
